@@ -107,6 +107,19 @@ def run_c20x(case):
         doc = {"title": "t", "logsource": {"category": "c"},
                "detection": {"sel": {"f|expand": ["%" + n + "%" for n in names]}, "condition": "sel"}}
         return list(TextQueryTestBackend(p1 + p2).convert(SigmaCollection.from_dicts([doc])))
+    if k == "custom":
+        from sigma.rule import SigmaRule
+        from sigma.validators.core.metadata import CustomAttributesValidator
+
+        attrs = ["realted", "reference", "ticket no", "owner", "zz_team"]  # the first two are known misspellings
+        doc = {"title": "t"}
+        doc.update({attrs[n - 1]: f"v{n}" for n in case["names"]})
+        doc.update({"logsource": {"category": "c"}, "detection": {"sel": {"f": "v"}, "condition": "sel"}})
+        pipe = ProcessingPipeline.from_dict({"name": "p", "priority": 1, "postprocessing": [
+            {"type": "simple_template", "template": "{query} | meta {rule.custom_attributes}"}]})
+        rule = SigmaRule.from_dict(doc)
+        issues = [type(i).__name__ + ":" + str(getattr(i, "fieldname", "")) for i in CustomAttributesValidator().validate(rule)]
+        return list(TextQueryTestBackend(pipe).convert_rule(rule)) + [str(list(rule.to_dict().keys()))] + issues
     raise ValueError(k)
 
 
